@@ -320,6 +320,16 @@ fn main() {
     cx.check("(u8,u8)", &t2, &|x| *x, true);
     cx.check("(u8,bool,u8)", &t3, &|x| *x, true);
     cx.check_bounded("(bool,bool)", &[(false, false), (false, true), (true, false), (true, true)], &|x| *x);
+    // tuples whose components are wrappers with an order of their own
+    let mut td: Vec<(Dual<u8>, bool)> = vec![];
+    let mut tdr: Vec<(bool, Dual<u8>)> = vec![];
+    let mut tdd: Vec<(Dual<u8>, Dual<u8>)> = vec![];
+    let mut tod: Vec<(Option<u8>, Dual<u8>)> = vec![];
+    for a in &d3 { for c in [false, true] { td.push((Dual(*a), c)); tdr.push((c, Dual(*a))); } for b in &d3 { tdd.push((Dual(*a), Dual(*b))); tod.push((if *a == 0 { None } else { Some(*a) }, Dual(*b))); } }
+    cx.check("(Dual<u8>,bool)", &td, &|x| *x, true);
+    cx.check("(bool,Dual<u8>)", &tdr, &|x| *x, true);
+    cx.check("(Dual<u8>,Dual<u8>)", &tdd, &|x| *x, true);
+    cx.check("(Option<u8>,Dual<u8>)", &tod, &|x| *x, true);
     cx.check("()", &[()], &|_| (), true);
     cx.check_bounded("()", &[()], &|_| ());
 
